@@ -20,7 +20,31 @@ func TestC02(t *testing.T) {
 	rec.Assume("departed nodes in the tail of a successor list are tolerated (counted) when at most 4 members remain (observation O1 in DESIGN.md: the statement speaks of true successors in ring order, which still holds for the member entries)",
 		"the schedule inside one function is left to the Go scheduler; the proxy owns the schedule points at every inter-node call")
 	if ev.Known("C02", sigOrphan) {
-		rec.Witnessed(sigOrphan, c02OrphanWitness())
+		// the witness needs both leaves to finish before the survivor's next periodic round
+		// (2 s); on a heavily loaded machine one attempt can be too slow
+		w := false
+		for i := 0; i < 4 && !w; i++ {
+			w = c02OrphanWitness()
+		}
+		rec.Witnessed(sigOrphan, w)
+	}
+	// schedule-stress tier: overlapping stabilization rounds of one real node while its view changes
+	{
+		rounds := ev.Pick(150000, 600000)
+		p, replay, done, split := overlappingStabilizeRounds(ev.ShardSeed(), rounds)
+		rec.Add("overlapping_stabilize_rounds", int64(done))
+		rec.Add("overlapping_stabilize_rounds_with_split_views", int64(split))
+		switch {
+		case p != "" && len(p) > 13 && p[:13] == "precondition:":
+			rec.Inconclusive("overlap-stress-precondition")
+			t.Logf("overlap stress: %s", p)
+		case p != "":
+			rec.Fail(t, "successor-list-stuck-after-overlapping-stabilize-rounds", replay, "%s", p)
+		default:
+			rec.Case(split > 0, "stress:overlapping-stabilize", func() any {
+				return map[string]any{"scenario": "2-3 overlapping stabilization rounds of one real node while the membership behind it changes twice; list compared with ring order after 3 quiet rounds", "rounds": done, "rounds_with_split_views": split}
+			}, "stress:overlapping-stabilize-rounds")
+		}
 	}
 	maxInit := ev.Pick(4, 8)
 	ev.RapidCheck(t, 40, 1200, func(t *rapid.T) {
